@@ -110,3 +110,43 @@ def num_eq(fc, a, b):
 def hlen(n):
     """Length of the canonical header for payload length n."""
     return 1 + min_k(n)
+
+
+# --- text items.  A (0o20): one byte per character, code unit == code point (the library extends 7-bit ASCII to
+# latin-1 so that "all byte values in text" round-trip).  J (0o21): JIS X 0201: ASCII with 0x5C = YEN SIGN and
+# 0x7E = OVERLINE, 0xA1..0xDF = halfwidth katakana U+FF61..U+FF9F; code units the standard leaves unassigned are
+# mapped to the code point of the same number.
+def text_char(fc, b):
+    """Code point denoted by code unit b in a text item of format fc."""
+    if fc == 0o21:
+        if b == 0x5C:
+            return 0xA5
+        if b == 0x7E:
+            return 0x203E
+        if 0xA1 <= b <= 0xDF:
+            return b + 0xFEC0
+    return b
+
+
+def text_encodable(fc, ch):
+    """ch (a code point) has a code unit in format fc."""
+    if fc == 0o21:
+        if ch == 0xA5 or ch == 0x203E:
+            return True
+        if 0xFF61 <= ch <= 0xFF9F:
+            return True
+        if ch == 0x5C or ch == 0x7E or 0xA1 <= ch <= 0xDF:
+            return False
+    return 0 <= ch <= 255
+
+
+def text_byte(fc, ch):
+    """Code unit of code point ch (must be encodable)."""
+    if fc == 0o21:
+        if ch == 0xA5:
+            return 0x5C
+        if ch == 0x203E:
+            return 0x7E
+        if 0xFF61 <= ch <= 0xFF9F:
+            return ch - 0xFEC0
+    return ch
